@@ -29,6 +29,8 @@ def run : Runner
   | op, args, impl =>
     let g := guard impl
     match op with
+    | "scantime" =>
+      some { model := "ok", prop := if impl == "ok" then "ok" else "violated:block scan cost grows super-polynomially " ++ impl }
     | "json" | "blkbytes" | "txbytes" =>
       -- external decoders (encoding/json, jsonpb, wire) are not modelled: only the guard is decided here
       some { model := if g == "ok" then impl else "no-fault", prop := g }
